@@ -338,6 +338,45 @@ class Source:
         return Item(self, "block", within.name + ":" + pattern, self.toks[a].start, end)
 
 
+def _find_range(self, within, start_pattern, end_pattern, nth=0, exclusive=False):
+    """Inside Item `within`: the statements from the nth occurrence of `start_pattern` up to and
+    including the statement that contains the next occurrence of `end_pattern` (that statement ends
+    at the next `;` at bracket depth 0, or at the `}` closing a block opened by the pattern)."""
+    ptoks = [t.text for t in code_tokens(tokenize(start_pattern))]
+    etoks = [t.text for t in code_tokens(tokenize(end_pattern))]
+    idxs = [k for k, t in enumerate(self.toks) if within.start <= t.start < within.end]
+    hits = [a for a in idxs if a + len(ptoks) <= len(self.toks)
+            and all(self.toks[a + d].text == ptoks[d] for d in range(len(ptoks)))]
+    if len(hits) <= nth:
+        raise ExtractError("range start %r (occurrence %d) not found in %s:%s" % (start_pattern, nth, self.path, within.name))
+    a = hits[nth]
+    b = None
+    for k in idxs:
+        if k >= a and k + len(etoks) <= len(self.toks) and all(self.toks[k + d].text == etoks[d] for d in range(len(etoks))):
+            b = k
+            break
+    if b is None:
+        raise ExtractError("range end %r not found after %r in %s:%s" % (end_pattern, start_pattern, self.path, within.name))
+    if exclusive:
+        # everything before the statement that starts with the end pattern
+        return Item(self, "block", within.name + ":" + start_pattern + " ..< " + end_pattern, self.toks[a].start, self.toks[b - 1].end)
+    q = b
+    depth = 0
+    while True:
+        t = self.toks[q].text
+        if t in OPEN:
+            q = match_close(self.toks, q)
+            if self.toks[q].text == "}" and depth == 0 and self.toks[q + 1].text != ";" and self.toks[q + 1].text not in (".", "else", "?"):
+                break
+        elif t == ";":
+            break
+        q += 1
+    return Item(self, "block", within.name + ":" + start_pattern + " .. " + end_pattern, self.toks[a].start, self.toks[q].end)
+
+
+Source.find_range = _find_range
+
+
 def _impl_matches(header, want):
     h = re.sub(r"<[^>]*>", "", header)  # drop generics for matching
     h = re.sub(r"\s+", " ", h).strip()
